@@ -490,6 +490,17 @@ func C02Plan() *vlib.Plan {
 		Assume: []string{"the receiver learns the peer IV from the wire, so a recorded transcript replays deterministically", "Go crypto/aes+cipher (GCM) trusted"},
 	}
 	p.Gen = func(tier string, yield func(vlib.Case)) {
+		yield(vlib.Case{ID: "no-fault/large-typed-messages", Run: func() *vlib.Result {
+			res := &vlib.Result{}
+			const MiB = 1 << 20
+			for d := -48; d <= 8; d++ {
+				c02NoFaultLarge(res, MiB+d)
+			}
+			for _, n := range []int{2*MiB - 64, 2*MiB - 33, 2*MiB - 16, 2 * MiB, 2*MiB + 5} {
+				c02NoFaultLarge(res, n)
+			}
+			return res
+		}})
 		long := tier == "thorough"
 		p.Bounds = map[string]any{"long_message": long, "fault_pairs": long}
 		ops := c02Ops()
@@ -643,4 +654,52 @@ func mergeResult(acc, one *vlib.Result) {
 		acc.Outcomes[k] += v
 	}
 	acc.Violations = append(acc.Violations, one.Violations...)
+}
+
+// c02NoFaultLarge: the fault-free end of the property - with nobody on the path, what the
+// receiver hands over IS what was sent - for messages the typed layer splits over several
+// protected frames (sizes around the 1 MiB frame limit and its 16/32-byte overheads), sent
+// after an earlier message (so the base IV is out of the way) and followed by another one.
+func c02NoFaultLarge(res *vlib.Result, n int) {
+	ctx := context.Background()
+	res.Evals++
+	res.Nontrivial++
+	sb := &netsim.Buf{}
+	snd := stream.NewStream(sb)
+	_ = snd.SetSymmetricKey(testKey)
+	body := payload(7, n)
+	msgs := [][]byte{[]byte("first"), body, []byte("last")}
+	for i, m := range msgs {
+		mm := message.NewMessageForStream(snd)
+		err := mm.PutBytes(ctx, m)
+		if err == nil {
+			err = mm.FinishMessage(ctx)
+		}
+		if err != nil {
+			res.Violate("C02/no-fault/send-error", "message %d (%d bytes): %v", i, len(m), err)
+			return
+		}
+	}
+	for _, R := range []string{"complete", "typed"} {
+		rcv := stream.NewStream(&netsim.Buf{R: sb.W})
+		_ = rcv.SetSymmetricKey(testKey)
+		for i, want := range msgs {
+			var got []byte
+			var err error
+			if R == "complete" {
+				got, err = rcv.ReceiveCompleteMessage(ctx)
+			} else {
+				got, err = message.NewMessageFromStream(rcv).GetRemainingBytes(ctx)
+			}
+			if err != nil {
+				res.Violate("C02/no-fault/receive-error/"+R, "untouched wire, message %d of 3 (middle one %d bytes): %v", i, n, err)
+				break
+			}
+			if !bytes.Equal(got, want) {
+				res.Violate("C02/no-fault/altered-message/"+R, "untouched wire, middle message of %d bytes: message %d was sent as %d bytes and handed over as %d bytes (first difference at %d)", n, i, len(want), len(got), firstDiff(got, want))
+				break
+			}
+		}
+	}
+	res.Outcome("no-fault-large-ok")
 }
